@@ -220,7 +220,8 @@ pub fn div_3x2_ref(n21: u128, n0: u64, d: u128) -> u64 {
         // in one or two times the divisor to make the remainder positive.
         // (It can not be more since the divisor is > 2^127 and the negated
         // remainder is < 2^128.)
-        let neg_remainder = u128::from(d0).wrapping_sub((u128::from(n1) << 64) | u128::from(n0));
+        let neg_remainder =
+            (u128::from(d0) << 64).wrapping_sub((u128::from(n1) << 64) | u128::from(n0));
         if neg_remainder > d {
             0xffff_ffff_ffff_fffe_u64
         } else {
